@@ -59,6 +59,10 @@ PROPS["C20"] = dict(
     ],
     assumptions=[
         "single-threaded use (locking of the pools belongs to C17)",
+        "the model has no preset parameter: what the pools do must not depend on the constants of common.Spec. The correspondence checks this on "
+        "every run: op `spec` recreates the real pools with SYNC_COMMITTEE_SIZE (subcommittees of 0..128 bits, mostly not a multiple of 8), "
+        "MAX_VALIDATORS_PER_COMMITTEE, SLOTS_PER_EPOCH, MAX_ATTESTATIONS, MAX_*_SLASHINGS, MAX_VOLUNTARY_EXITS, MAX_BLS_TO_EXECUTION_CHANGES taking "
+        "several values each, and stored contributions are compared bit for bit (op `sdump`)",
         "signatures are opaque to the pools (they are not verified there); committees are supplied by the caller",
         "the contents of the SyncCommitteePool buffers cannot be read through the exported API (PackContribution/PackAggregate are stubs): "
         "the correspondence reads them through the add-only `verif` hook eth2/pool/verif_export.go (op `sdump`); MinAggregates.Extra is never read by "
